@@ -239,6 +239,14 @@ def _execute(sc, clock0):
                 if not same(float(ga), want_a) or not same(float(gl), want_l):
                     violate(k, "side_selection", "{} sign {}: acq {} liq {} expected {} / {}".format(
                         specs[j]["name"], s, ga, gl, want_a, want_l), kind="sign_" + ("pos" if s > 0 else ("neg" if s < 0 else "zero")))
+            arr = {"bid": ex.bid_prices(cs), "ask": ex.ask_prices(cs), "mid": ex.mid_prices(cs), "spread": ex.spreads(cs)}
+            for pos_, j in enumerate(keys):
+                sym, lead = M.resolve(j, now)
+                mb = M.book(sym)
+                wantv = {"bid": mb["bid"], "ask": mb["ask"], "mid": (mb["ask"] + mb["bid"]) / 2, "spread": mb["ask"] - mb["bid"]}
+                for name_, vec in arr.items():
+                    if not same(float(vec[pos_]), wantv[name_]):
+                        violate(k, "book_state", "{}: {}_prices reports {} expected {}".format(specs[j]["name"], name_, vec[pos_], wantv[name_]), kind="array_" + name_, by_string=False)
             trace.append("?")
         # after every operation: every key's book agrees with the model
         for j in range(len(specs)):
